@@ -21,16 +21,44 @@ var cleanStyleRe = regexp.MustCompile(`^[a-z-]+: [^;:\\/*!{}"'<>&\x00-\x1f]*[^;:
 
 type cleanDecl struct{ prop, val string }
 
-func splitClean(s string) []cleanDecl {
-	var out []cleanDecl
-	for _, d := range strings.Split(s, "; ") {
-		i := strings.Index(d, ": ")
-		if i < 0 {
-			return nil
-		}
-		out = append(out, cleanDecl{d[:i], d[i+2:]})
+var cleanPieceRe = regexp.MustCompile(`^[a-z-]+:[ \t\n\r\f]*[^;:\\/*!{}"'<>&\x00-\x1f]*[^;:\\/*!{}"'<>&\x00-\x20]$`)
+
+// splitClean reads a cleanly parseable declaration list: `prop: value` items with plain values,
+// separated by semi-colons, with any CSS white space (space, tab, LF, CR, FF) around the separators,
+// before the first and after the last item, an optional final semi-colon, and possibly empty
+// declarations (`;;`). Returns nil if s is not of that form. layout names what is unusual about
+// the formatting ("plain" for the canonical `a: b; c: d`).
+func splitClean(s string) (out []cleanDecl, layout string) {
+	layout = "plain"
+	const ws = " \t\n\r\f"
+	if strings.TrimRight(s, ws+";") != s {
+		layout = "trailing-whitespace-or-semicolon"
 	}
-	return out
+	if strings.TrimLeft(s, ws) != s {
+		layout = "leading-whitespace"
+	}
+	pieces := strings.Split(s, ";")
+	for i, d := range pieces {
+		t := strings.Trim(d, ws)
+		if t == "" {
+			if i != len(pieces)-1 {
+				layout = "empty-declaration"
+			}
+			continue
+		}
+		if t != strings.TrimPrefix(d, " ") && layout == "plain" {
+			layout = "whitespace-around-separator"
+		}
+		if !cleanPieceRe.MatchString(t) {
+			return nil, ""
+		}
+		k := strings.Index(t, ":")
+		out = append(out, cleanDecl{t[:k], strings.TrimLeft(t[k+1:], ws)})
+	}
+	if len(out) == 0 {
+		return nil, ""
+	}
+	return out, layout
 }
 
 // bracketsBalanced: (), [] properly nested (a cleanly parseable style leaves no block open).
@@ -204,14 +232,15 @@ func c10Judge(cs *core.Case, ob *Obs, lc core.LocalCounts) {
 				n++
 			}
 		}
-		if n != 1 || !cleanStyleRe.MatchString(sv) || !bracketsBalanced(sv) {
+		if n != 1 || !bracketsBalanced(sv) {
 			continue // not a cleanly parseable style
 		}
-		inDecls := splitClean(sv)
+		inDecls, layout := splitClean(sv)
 		if inDecls == nil {
 			continue
 		}
 		lc["clean_style_inputs_judged"]++
+		lc["clean_style_layout:"+layout]++
 		judgedAny = true
 		var must []string
 		for _, d := range inDecls {
@@ -253,13 +282,13 @@ func c10Judge(cs *core.Case, ob *Obs, lc core.LocalCounts) {
 			if !dropped || len(must) > 0 {
 				w := ob.Witness()
 				w["expected_declarations"], w["got_style"] = must, got
-				cs.Violate("C10:clean-style:allowed-declaration-lost", fmt.Sprintf("clean style %q on <%s>: declarations %q are allowed and must be kept in order, output style is %q", sv, it.Name, must, got), w)
+				cs.Violate("C10:clean-style:allowed-declaration-lost:"+layout, fmt.Sprintf("clean style %q on <%s>: declarations %q are allowed and must be kept in order, output style is %q", sv, it.Name, must, got), w)
 			}
 		}
 		if !sub(gotDecls, inStr) {
 			w := ob.Witness()
 			w["got_style"] = got
-			cs.Violate("C10:clean-style:not-a-subsequence", fmt.Sprintf("clean style %q on <%s>: output style %q is not the input's declarations in order joined by '; '", sv, it.Name, got), w)
+			cs.Violate("C10:clean-style:not-a-subsequence:"+layout, fmt.Sprintf("clean style %q on <%s>: output style %q is not the input's declarations in order joined by '; '", sv, it.Name, got), w)
 		}
 	}
 	if judgedAny {
